@@ -94,10 +94,12 @@ class C08(Prop):
 
     def cases(self, rng: random.Random, tier: str) -> Iterable[dict]:
         C08._variant = -1
-        forced = [0.05, 0.14, 0.17, 0.18, 0.18, 0.18, 0.18, 0.18, 0.23] * 2      # every dedicated family, whatever the seed
+        forced = [0.05, 0.14, 0.17, 0.18, 0.18, 0.18, 0.18, 0.18, 0.23, 0.265, 0.265] * 2      # every dedicated family, whatever the seed
         while True:
             r = forced.pop() if forced else rng.random()
-            if r < 0.12:
+            if 0.26 <= r < 0.27:
+                c = self._mapped_default(rng)
+            elif r < 0.12:
                 c = self._entry_bypass(rng)
             elif r < 0.16:
                 c = self._cycle_seed_default(rng)
@@ -155,6 +157,22 @@ class C08(Prop):
                 ops["rtselect"] = rtsel
             yield {"program": program, "known": [[k, v] for k, v in known.items()], "rtselect": rtsel, "ops": ops,
                    "runner": rng.choice(["sync", "async"]), "rtselectTuple": rtsel is not None and rng.random() < 0.5}
+
+    @staticmethod
+    def _mapped_default(rng: random.Random) -> dict:
+        """A mapping wrapper whose mapped-over parameter has only a SIGNATURE default inside (one item, not a collection to map over), or a
+        collection BOUND inside (usable): what the spec reports must be what a run needs."""
+        d = rng.randint(2, 9)
+        inner_nodes = [{"name": "dbl", "kind": "fn", "params": [["x", {"d": d}], ["f", None]], "dataOuts": ["y"], "body": {"b": "sum", "k": 0}}]
+        bound_inside = rng.random() < 0.35
+        inner = {"name": "m", "nodes": inner_nodes, "bound": [["x", {"l": [1, 2, 3]}]] if bound_inside else []}
+        ren = [["x", "xs"]] if rng.random() < 0.5 else []
+        cur = "xs" if ren else "x"
+        w = {"name": "w", "kind": "graph", "inner": 0, "inRen": ren, "outRen": [], "mapOver": [cur], "mapMode": "zip", "errMode": "raise"}
+        nodes = [w, {"name": "after", "kind": "fn", "params": [["y", None]], "dataOuts": ["fin"], "body": {"b": "tag", "t": "after"}}]
+        rng.shuffle(nodes)
+        return {"program": [inner, {"name": "g1", "nodes": nodes, "bound": []}], "values": [[cur, {"l": [rng.randint(0, 4) for _ in range(rng.randint(1, 3))]}], ["f", rng.randint(0, 3)]],
+                "fixed_ops": True}
 
     @staticmethod
     def _two_cycles(rng: random.Random) -> dict:
